@@ -474,18 +474,6 @@ impl<'a> KMergeIterator<'a> {
 		Self::new_with_comparator(iter_state, internal_range, cmp, None)
 	}
 
-	/// Creates a new KMergeIterator with TimestampComparator for history queries.
-	/// This enables timestamp-based seek optimization when timestamps are monotonic with seq_nums.
-	pub(crate) fn new_for_history(
-		iter_state: IterState,
-		internal_range: InternalKeyRange,
-		ts_range: Option<(u64, u64)>,
-	) -> Self {
-		let cmp: Arc<dyn Comparator> =
-			Arc::new(TimestampComparator::new(Arc::new(BytewiseComparator::default())));
-		Self::new_with_comparator(iter_state, internal_range, cmp, ts_range)
-	}
-
 	/// Creates a KMergeIterator merging memtable iterators + B+tree versioned index.
 	/// Used when `enable_versioned_index` is true: the B+tree holds flushed data with
 	/// value pointers, while memtables hold unflushed data with inline values.
@@ -1435,13 +1423,10 @@ impl<'a> HistoryIterator<'a> {
 		lower: Option<&[u8]>,
 		upper: Option<&[u8]>,
 	) -> Self {
-		// Use TimestampComparator for history queries with timestamp range
-		// This enables efficient timestamp-based seeks when timestamps are monotonic with seq_nums
-		let inner = if ts_range.is_some() {
-			KMergeIterator::new_for_history(iter_state, range, ts_range)
-		} else {
-			KMergeIterator::new_from(iter_state, range)
-		};
+		// The barrier rule (hard delete / replace) has to see every visible version of a
+		// key, also those outside the requested timestamp range: no source is pruned by
+		// timestamp, and the merge stays in commit (sequence number) order.
+		let inner = KMergeIterator::new_from(iter_state, range);
 
 		Self::new(inner, seq_num, include_tombstones, lower, upper, ts_range, limit)
 	}
@@ -1485,46 +1470,6 @@ impl<'a> HistoryIterator<'a> {
 
 	fn inner_prev(&mut self) -> Result<bool> {
 		self.inner.prev()
-	}
-
-	/// Skip all remaining entries for the current user_key.
-	/// Returns true if positioned on a new user_key, false if iterator exhausted.
-	fn skip_to_next_user_key(&mut self) -> Result<bool> {
-		let current = self.current_user_key.clone();
-		while self.inner_valid() {
-			if self.inner_key().user_key() != current.as_slice() {
-				return Ok(true);
-			}
-			self.inner_next()?;
-		}
-		Ok(false)
-	}
-
-	/// With ts_range, seek to (next_user_key, ts_end) to skip entries above range.
-	/// Without ts_range, linearly scan past entries with the same user_key.
-	/// Returns true if positioned on a new user_key, false if iterator exhausted.
-	fn advance_to_next_user_key(&mut self) -> Result<bool> {
-		// Only optimize with ts_range
-		let ts_end = match self.ts_range {
-			Some((_, end)) => end,
-			None => return self.skip_to_next_user_key(),
-		};
-
-		let current = self.current_user_key.clone();
-
-		// Advance to find next user_key
-		while self.inner_valid() {
-			let next_key_vec = self.inner_key().user_key().to_vec();
-			if next_key_vec != current {
-				// Found next key - seek to (next_key, ts_end) to skip entries above range
-				let seek_key =
-					InternalKey::new(next_key_vec, u64::MAX, InternalKeyKind::Set, ts_end);
-				self.inner.seek(&seek_key.encode())?;
-				return Ok(self.inner_valid());
-			}
-			self.inner_next()?;
-		}
-		Ok(false)
 	}
 
 	// --- Bounds checking ---
@@ -1611,24 +1556,6 @@ impl<'a> HistoryIterator<'a> {
 				continue;
 			}
 
-			// Skip entries outside timestamp range
-			if let Some((ts_start, ts_end)) = self.ts_range {
-				if timestamp > ts_end {
-					// Above range - skip, next entries might be in range
-					self.inner_next()?;
-					continue;
-				}
-				if timestamp < ts_start {
-					// Below range - all remaining entries for this key are also below
-					// (timestamps are ordered descending within a key).
-					// Skip to next user_key with optimization for B+tree.
-					if !self.advance_to_next_user_key()? {
-						return Ok(false);
-					}
-					continue;
-				}
-			}
-
 			// First visible entry → check for HARD_DELETE as latest
 			if !self.first_visible_seen {
 				self.first_visible_seen = true;
@@ -1670,6 +1597,15 @@ impl<'a> HistoryIterator<'a> {
 				continue;
 			}
 
+			// Rule 6: timestamp range - applied AFTER the barrier rules, so that a hard
+			// delete / replace outside the range still hides what it erased
+			if let Some((ts_start, ts_end)) = self.ts_range {
+				if timestamp > ts_end || timestamp < ts_start {
+					self.inner_next()?;
+					continue;
+				}
+			}
+
 			// Found valid entry - increment counter
 			self.entries_returned += 1;
 			return Ok(true);
@@ -1706,6 +1642,7 @@ impl<'a> HistoryIterator<'a> {
 		// Collect all visible versions
 		// Backward storage order: (user_key DESC, seq_num ASC) → oldest first
 		struct VersionInfo {
+			in_ts_range: bool,
 			is_hard_delete: bool,
 			is_replace: bool,
 			is_tombstone: bool,
@@ -1731,8 +1668,11 @@ impl<'a> HistoryIterator<'a> {
 				None => true,
 			};
 
-			if visible && in_ts_range {
+			// every visible version takes part in the barrier rule; the timestamp range
+			// only filters what is shown
+			if visible {
 				versions.push(VersionInfo {
+					in_ts_range,
 					is_hard_delete: key_ref.is_hard_delete_marker(),
 					is_replace: key_ref.is_replace(),
 					is_tombstone: key_ref.is_tombstone(),
@@ -1791,6 +1731,11 @@ impl<'a> HistoryIterator<'a> {
 
 			// Tombstone filtering
 			if !self.include_tombstones && v.is_tombstone {
+				continue;
+			}
+
+			// Timestamp range: after the barrier rule
+			if !v.in_ts_range {
 				continue;
 			}
 
@@ -1918,17 +1863,7 @@ impl LSMIterator for HistoryIterator<'_> {
 		self.direction = MergeDirection::Forward;
 		self.reset_all_state();
 
-		if self.ts_range.is_some() {
-			// Seek to (lower_bound or empty, ts_end) to skip entries above range
-			let ts = self.ts_range.map(|(_, end)| end).unwrap_or(u64::MAX);
-			let seek_key = InternalKey::new(
-				self.lower_bound.clone().unwrap_or_default(),
-				u64::MAX,
-				InternalKeyKind::Set,
-				ts,
-			);
-			self.inner.seek(&seek_key.encode())?;
-		} else if let Some(ref lower) = self.lower_bound {
+		if let Some(ref lower) = self.lower_bound {
 			let seek_key =
 				InternalKey::new(lower.clone(), u64::MAX, InternalKeyKind::Set, u64::MAX);
 			self.inner.seek(&seek_key.encode())?;
